@@ -112,6 +112,23 @@ func construct(c *vt.Ctx, kind string) *vt.Deviation {
 		if d, _ := v.Getwd(); kind == "OrefaFS" && d != root {
 			return mk(tc.name, fmt.Sprintf("initial working directory %q", d))
 		}
+		// the temporary directory is the emulated system's own, whatever the host's is
+		td := v.TempDir()
+		if err := v.MkdirAll(td, 0o777); err != nil {
+			return mk(tc.name, fmt.Sprintf("MkdirAll(TempDir() = %q): %v", td, err))
+		}
+		if f, err := v.CreateTemp("", "t*"); err != nil {
+			return mk(tc.name, fmt.Sprintf("CreateTemp(\"\", ...) fails: %v (TempDir() = %q exists)", err, td))
+		} else {
+			n := f.Name()
+			_ = f.Close()
+			if v.Dir(n) != v.Clean(td) {
+				return mk(tc.name, fmt.Sprintf("CreateTemp(\"\", ...) created %q, TempDir() is %q", n, td))
+			}
+		}
+		if n, err := v.MkdirTemp("", "d*"); err != nil || v.Dir(n) != v.Clean(td) {
+			return mk(tc.name, fmt.Sprintf("MkdirTemp(\"\", ...) = %q, %v; TempDir() is %q", n, err, td))
+		}
 		// error values of a battery of failing calls
 		missing := v.Join(root, "missing", "x")
 		_ = v.MkdirAll(v.Join(root, "d"), 0o755)
@@ -238,6 +255,7 @@ func okClass(o fsx.Out) string {
 // modelVolume is the reference for the names used below: a drive letter (ASCII letter and
 // colon) in front, or a \\host\share prefix; nothing else is a volume.
 func modelVolume(name string) string {
+	name = strings.ReplaceAll(name, "/", `\`) // either separator; the volume name is spelt with backslashes
 	if len(name) >= 2 && name[1] == ':' && (name[0] >= 'a' && name[0] <= 'z' || name[0] >= 'A' && name[0] <= 'Z') {
 		return name[:2]
 	}
@@ -545,7 +563,7 @@ func TestCheck(t *testing.T) {
 		})
 	}
 	// volumes
-	names := []string{"C:", "D:", "d:", `D:\x`, "x", "", "E:", `\\host\share`}
+	names := []string{"C:", "D:", "d:", `D:\x`, "x", "", "E:", `\\host\share`, "//host/share/x"}
 	// the ends of the two letter ranges and the characters just outside them
 	edge := []string{"Z:", "z:", "A:", "a:", `Z:\x`, "@:", "[:", "`:", "{:", "1:"}
 	var steps, all []string
